@@ -118,6 +118,7 @@ def child_case(rng, seed):
     cfg = E.policy_cfg(policy)
     cfg["execution_ttl"] = 600
     cfg["store"] = rng.choice(["file", "file", "redis"])     # (what "no such state machine" looks like differs per store)
+    cfg["tz"] = rng.choice(["UTC0", "SIM-05:30", "SIM+03:00", "SIM-12:45"])   # (children get time stamps of their own)
     cdef, cstatus = CHILDREN[kind]
     # the parent's own execution name may be as long as a name can be: the children it launches still get names (and
     # ARNs) of their own
@@ -198,6 +199,11 @@ def check_child(scn, meta, seed):
         cd = term[0][2]
         if cd["status"] != cstatus:
             add(findings, "child-status", "child ended %s, expected %s" % (cd["status"], cstatus))
+        # a child is an execution like any other: its own first-state Wait (6 s in the "slow" child) takes its time,
+        # whatever the host's time zone
+        if kind == "slow" and evs and evs[0][0] == "RUNNING" and (term[0][1] - evs[0][1]) < 6.0 - TOL:
+            add(findings, "child-wait-early", "the child's 6 s Wait: child announced at %.3f, ended %s at %.3f (TZ %s)" % (
+                evs[0][1] - EPOCH, cd["status"], term[0][1] - EPOCH, scn["config"].get("tz")), witness=form)
         # handing the result to the parent must leave the child's own story alone: JSON text in its notifications
         for st_, t_, d_ in evs:
             if not isinstance(d_.get("input"), str) or (d_.get("output") is not None and not isinstance(d_.get("output"), str)):
